@@ -87,6 +87,7 @@ func checkC09(r *core.Run) {
 	r.Count("bounds_functions", len(ba.FuncsAnalysed))
 	c09Scope(r, p)
 	c09Canon(r, p, ba)
+	c09Workers(r, p)
 	c09Witness(r, p)
 	c09Sizes(r, p, ba)
 }
@@ -367,3 +368,62 @@ func c09Sizes(r *core.Run, p *core.Program, ba *an.BoundsAnalysis) {
 }
 
 var _ = ssa.BuilderMode(0)
+
+// c09Workers: the hashing workers of BuildTxListExt run in goroutines, where a nil dereference cannot be
+// turned into an error by any caller. Every list handed to a worker must contain parsed transactions only:
+// an explicit upper bound (the number parsed so far), or an open-ended slice of the block's own list read
+// at that moment (which the failure branch trims to the parsed prefix) - not of a copy of the slice header
+// taken before parsing.
+func c09Workers(r *core.Run, p *core.Program) {
+	const rule = "R-C09-bounds"
+	fn := p.Func("lib/btc.(*Block).BuildTxListExt")
+	if fn == nil {
+		return
+	}
+	n := 0
+	var bad []string
+	for _, b := range fn.Blocks {
+		for _, ins := range b.Instrs {
+			g, ok := ins.(*ssa.Go)
+			if !ok || len(g.Call.Args) == 0 {
+				continue
+			}
+			sl, ok := g.Call.Args[0].(*ssa.Slice)
+			if !ok {
+				bad = append(bad, "a worker is started at "+p.Pos(g.Pos())+" with a list that is not a slice of the parsed transactions")
+				continue
+			}
+			n++
+			if sl.High != nil {
+				continue
+			}
+			ld, isLoad := sl.X.(*ssa.UnOp)
+			fromField := false
+			if isLoad {
+				if fa, ok := ld.X.(*ssa.FieldAddr); ok {
+					if f, _ := an.FieldOf(fa); f == "lib/btc.Block.Txs" && ld.Block() == b {
+						fromField = true
+					}
+				}
+			}
+			if !fromField {
+				bad = append(bad, "the worker started at "+p.Pos(g.Pos())+" gets an open-ended slice of "+an.Expr(sl.X)+", which may still hold the unparsed (nil) tail after a parse error")
+			}
+		}
+	}
+	// and the failure branch does trim the block's list
+	trim := false
+	an.Instrs(fn, func(i ssa.Instruction) {
+		if st, ok := i.(*ssa.Store); ok {
+			if fa, ok := st.Addr.(*ssa.FieldAddr); ok {
+				if f, _ := an.FieldOf(fa); f == "lib/btc.Block.Txs" {
+					if s2, ok := st.Val.(*ssa.Slice); ok && s2.High != nil && s2.Low == nil {
+						trim = true
+					}
+				}
+			}
+		}
+	})
+	sort.Strings(bad)
+	r.Check(len(bad) == 0 && n >= 2 && trim, rule, "workers-get-parsed-transactions-only", p.Pos(fn.Pos()), fmt.Sprintf("%d worker starts, each with a bounded list or the trimmed list of the block", n), strings.Join(bad, "; "))
+}
